@@ -38,6 +38,7 @@ func (o Op) String() string {
 // Scenario is a sequential prefix, concurrent clients, then a checker.
 type Scenario struct {
 	U       int    `json:"universe"`
+	Strings bool   `json:"strings,omitempty"` // Set[string] (empty string included), composite arguments are concurrent sets
 	Prefix  []Op   `json:"prefix"`
 	Clients [][]Op `json:"clients"`
 }
@@ -110,7 +111,7 @@ func genOp(r *simrt.Rand, u int) Op {
 
 // Generate implements core.Harness.
 func (H) Generate(r *simrt.Rand, tier string) any {
-	s := &Scenario{U: 1 + r.Intn(4)}
+	s := &Scenario{U: 1 + r.Intn(4), Strings: r.Intn(4) == 0}
 	if r.Intn(8) == 0 {
 		s.U = 5 + r.Intn(8)
 	}
@@ -148,7 +149,7 @@ func (H) Shrink(sc any) []any {
 	s := sc.(*Scenario)
 	var out []any
 	clone := func() *Scenario {
-		c := &Scenario{U: s.U, Prefix: append([]Op(nil), s.Prefix...)}
+		c := &Scenario{U: s.U, Strings: s.Strings, Prefix: append([]Op(nil), s.Prefix...)}
 		for _, cl := range s.Clients {
 			c.Clients = append(c.Clients, append([]Op(nil), cl...))
 		}
@@ -185,7 +186,80 @@ func (H) Shrink(sc any) []any {
 	return out
 }
 
-func do(s *sync2.Set[int], o Op) Rec {
+// set is the set under test behind int values (two type instantiations).
+type set interface {
+	Add(v int) bool
+	Remove(v int) bool
+	Has(v int) bool
+	AddSet(vals []int) int
+	RemoveSet(vals []int) int
+	Len() int
+	Slice() []int
+}
+
+type intSet struct{ s sync2.Set[int] }
+
+func (x *intSet) Add(v int) bool    { return x.s.Add(v) }
+func (x *intSet) Remove(v int) bool { return x.s.Remove(v) }
+func (x *intSet) Has(v int) bool    { return x.s.Has(v) }
+func (x *intSet) AddSet(vals []int) int {
+	arg := make(maps.Set[int])
+	for _, v := range vals {
+		arg.Add(v)
+	}
+	return x.s.AddSet(arg)
+}
+func (x *intSet) RemoveSet(vals []int) int {
+	arg := make(maps.Set[int])
+	for _, v := range vals {
+		arg.Add(v)
+	}
+	return x.s.RemoveSet(arg)
+}
+func (x *intSet) Len() int     { return x.s.Len() }
+func (x *intSet) Slice() []int { return x.s.Slice() }
+
+// strSet: string members, the empty string included; composite arguments are
+// themselves concurrent sets.
+type strSet struct{ s sync2.Set[string] }
+
+func ss(v int) string {
+	if v == 0 {
+		return ""
+	}
+	return fmt.Sprint("v", v)
+}
+func (x *strSet) Add(v int) bool    { return x.s.Add(ss(v)) }
+func (x *strSet) Remove(v int) bool { return x.s.Remove(ss(v)) }
+func (x *strSet) Has(v int) bool    { return x.s.Has(ss(v)) }
+func (x *strSet) AddSet(vals []int) int {
+	var arg sync2.Set[string]
+	for _, v := range vals {
+		arg.Add(ss(v))
+	}
+	return x.s.AddSet(&arg)
+}
+func (x *strSet) RemoveSet(vals []int) int {
+	var arg sync2.Set[string]
+	for _, v := range vals {
+		arg.Add(ss(v))
+	}
+	return x.s.RemoveSet(&arg)
+}
+func (x *strSet) Len() int { return x.s.Len() }
+func (x *strSet) Slice() []int {
+	var out []int
+	for _, m := range x.s.Slice() {
+		v := 0
+		if m != "" {
+			fmt.Sscanf(m, "v%d", &v)
+		}
+		out = append(out, v)
+	}
+	return out
+}
+
+func do(s set, o Op) Rec {
 	rec := Rec{Op: o}
 	rec.Inv = simrt.Stamp()
 	switch o.K {
@@ -195,16 +269,10 @@ func do(s *sync2.Set[int], o Op) Rec {
 		rec.B = s.Remove(o.V)
 	case "has":
 		rec.B = s.Has(o.V)
-	case "addset", "removeset":
-		arg := make(maps.Set[int])
-		for _, v := range o.Vals {
-			arg.Add(v)
-		}
-		if o.K == "addset" {
-			rec.N = s.AddSet(arg)
-		} else {
-			rec.N = s.RemoveSet(arg)
-		}
+	case "addset":
+		rec.N = s.AddSet(o.Vals)
+	case "removeset":
+		rec.N = s.RemoveSet(o.Vals)
 	case "len":
 		rec.N = s.Len()
 	case "slice":
@@ -219,13 +287,16 @@ func do(s *sync2.Set[int], o Op) Rec {
 // Execute implements core.Harness.
 func (H) Execute(scAny any, cfg simrt.Config, st *core.Stats) (*simrt.Outcome, *core.Violation) {
 	sc := scAny.(*Scenario)
-	var set sync2.Set[int]
+	var set set = &intSet{}
+	if sc.Strings {
+		set = &strSet{}
+	}
 	hist := make([][]Rec, 2+len(sc.Clients))
 	s := simrt.New(cfg)
 	s.Go(func() {
 		for _, o := range sc.Prefix {
 			simrt.Yield()
-			hist[0] = append(hist[0], do(&set, o))
+			hist[0] = append(hist[0], do(set, o))
 		}
 		var wg ssync.WaitGroup
 		wg.Add(len(sc.Clients))
@@ -235,7 +306,7 @@ func (H) Execute(scAny any, cfg simrt.Config, st *core.Stats) (*simrt.Outcome, *
 				defer wg.Done()
 				for _, o := range sc.Clients[i] {
 					simrt.Yield()
-					hist[1+i] = append(hist[1+i], do(&set, o))
+					hist[1+i] = append(hist[1+i], do(set, o))
 				}
 			})
 		}
@@ -243,12 +314,12 @@ func (H) Execute(scAny any, cfg simrt.Config, st *core.Stats) (*simrt.Outcome, *
 		last := 1 + len(sc.Clients)
 		for v := 0; v < sc.U; v++ {
 			simrt.Yield()
-			hist[last] = append(hist[last], do(&set, Op{K: "has", V: v}))
+			hist[last] = append(hist[last], do(set, Op{K: "has", V: v}))
 		}
 		simrt.Yield()
-		hist[last] = append(hist[last], do(&set, Op{K: "len"}))
+		hist[last] = append(hist[last], do(set, Op{K: "len"}))
 		simrt.Yield()
-		hist[last] = append(hist[last], do(&set, Op{K: "slice"}))
+		hist[last] = append(hist[last], do(set, Op{K: "slice"}))
 	})
 	out := s.Run()
 	if v := core.OutcomeViolation(out); v != nil {
